@@ -60,6 +60,7 @@ type Addr struct {
 	typ      types.Type // type of addressed location
 	detached *Term      // read-only value (no origin)
 	global   string     // package-level variable key
+	boxKey   string     // private heap of a captured (closure-only) local variable
 }
 
 type State struct {
@@ -172,7 +173,17 @@ func (s *State) baseValue(a *Addr) (*Term, []PathStep) {
 		}
 		return tCtor(srt, args...), a.path
 	}
-	return tSelect(s.heap(plainHeapKey(a.base)), a.ref), a.path
+	return tSelect(s.heap(a.plainKey()), a.ref), a.path
+}
+
+func (a *Addr) plainKey() string {
+	if a.boxKey != "" {
+		if _, ok := heapSorts[a.boxKey]; !ok {
+			heapSorts[a.boxKey] = arraySort(sortInt, sortOf(a.base))
+		}
+		return a.boxKey
+	}
+	return plainHeapKey(a.base)
 }
 
 func (s *State) heapOrGlobal(a *Addr) *Term {
@@ -253,7 +264,7 @@ func (s *State) store(a *Addr, nv *Term) error {
 		}
 		return nil
 	}
-	key := plainHeapKey(a.base)
+	key := a.plainKey()
 	h := s.heap(key)
 	old := tSelect(h, a.ref)
 	s.setHeap(key, tStore(h, a.ref, updatePath(old, a.path, nv)))
